@@ -3640,9 +3640,14 @@ def run_api_strata(ctx):
          bool(CW(2.0).equiv(MatrixWeighting(2 * np.eye(3), impl='numpy'))) and
          not MatrixWeighting(2 * np.eye(3), impl='numpy').equiv(CW(3.0)) and mw.equiv(mw) is True,
          'a diagonal MatrixWeighting is equivalent to the array / constant weighting of its diagonal')
-    _api(ctx, 'weighting-equiv/MatrixWeighting-vs-matrix', lambda: bool(mw.equiv(mw2)) and
-         bool(mw2.equiv(mw)) and not mw.equiv(MatrixWeighting(np.diag(D3 + 1), impl='numpy')),
-         'two MatrixWeightings with equal matrices are equivalent')
+    # C20-F19 (AttributeError `matrix_issparse`) was repaired in /repo 0e46014: the correct
+    # answers are REQUIRED now, incl. a working hash that respects ==
+    mw3 = MatrixWeighting(np.diag(D3 + 1), impl='numpy')
+    _api(ctx, 'weighting-equiv/MatrixWeighting-vs-matrix', lambda: mw.equiv(mw2) is True and
+         mw2.equiv(mw) is True and mw.equiv(mw3) is False and mw3.equiv(mw) is False and
+         isinstance(hash(mw), int) and (not (mw == mw2) or hash(mw) == hash(mw2)) and
+         mw == mw and isinstance(repr(mw), str),
+         'two MatrixWeightings with equal matrices are equivalent (and hash / repr work)')
 
     # ---- H..N: elements of spaces
     for sn, S in api_spaces():
